@@ -367,7 +367,7 @@ def firstH (a : Slice) : Prog GoVal := if lenS a = 0 then .ret .nil else index a
 def lastH (a : Slice) : Prog GoVal := if lenS a = 0 then .ret .nil else index a (lenS a - 1)
 
 def joinStep (_ : Unit) (v : GoVal) : Res Cause (Unit × Option GoVal) :=
-  if v.isNil then .ok ((), none) else (sprint v).bind fun b => .ok ((), some (.str b))
+  if v.isNil then .ok ((), none) else (sprintR v).bind fun b => .ok ((), some (.str b))
 
 def strOf : GoVal → Bytes
   | .str s => s
@@ -398,7 +398,7 @@ def mapH (a : Slice) (k : Bytes) : Prog Slice := collect a (mapStep k) () none
 /-- `seen(item)` of `uniqFilter`: the loop state is the list of the keys of `result` (`ArrF.uniqOn`) -/
 def uniqStep (seen : List String) (x : GoVal) : Res Cause (List String × Option GoVal) :=
   if ArrF.hasPtr x then .unmodelled "uniq: pointer identity"
-  else if seen.contains (MapOrder.canonEnc x) then .ok (seen, none) else .ok (MapOrder.canonEnc x :: seen, some x)
+  else if seen.contains (ArrF.uniqKey x) then .ok (seen, none) else .ok (ArrF.uniqKey x :: seen, some x)
 
 /-- `for _, item := range a { if !seen(item) { result = append(result, item) } }` -/
 def uniqH (a : Slice) : Prog Slice := collect a uniqStep [] none
